@@ -262,6 +262,45 @@ def two_repcode_histories(prog, res):
     res.need(R, 4)
 
 
+def ldm_leftover_accumulates(prog, res):
+    """T8 (literal conservation across LDM chunks): ZSTD_ldm_generateSequences cuts its input in chunks; the literals left
+    after the last match of a chunk are owed to the first sequence of a LATER chunk.  When a chunk yields no sequence at all
+    the whole chunk joins what is already owed: on the no-new-sequence edge the carry must be accumulated (`+=`), never
+    overwritten, and it is only replaced on the edge where it has just been added to a sequence."""
+    R = "T8.ldm-leftover-accumulates"
+    f = prog.fn("ZSTD_ldm_generateSequences")
+    consume = [x for b, i, x in f.events(lambda y: y.get("k") == "asg" and y.get("op") == "+=") if strip_casts(x["lhs"]).get("f") == "litLength"]
+    carry = None
+    for x in consume:
+        for y in f.walk_resolved(x["rhs"]):
+            if y.get("k") == "ref" and y.get("rk") in ("l", "sl"):
+                carry = y["n"]
+    res.check(carry is not None, R, "carry-variable", f.loc, "the carried literal count is added to a sequence's litLength", "no carried literal count found in ZSTD_ldm_generateSequences")
+    if carry is None:
+        return
+    cons_roots = f.find_roots(lambda y: y.get("k") == "asg" and y.get("op") == "+=" and strip_casts(y["lhs"]).get("f") == "litLength")
+    bad = []
+    n = 0
+    for b, i, x in f.events(lambda y: y.get("k") == "asg" and strip_casts(y["lhs"]).get("k") == "ref" and strip_casts(y["lhs"]).get("n") == carry):
+        if x.get("op") == "+=" or const_val(x["rhs"]) == 0:
+            n += 1
+            continue
+        n += 1
+        # a plain overwrite is only legitimate right after the carry has been handed to a sequence
+        if not f.must_pass(via_roots=cons_roots, targets=[(b, i)]) or not any((b, i) in f.flow([(cb, ci + 1)]) for cb, ci in cons_roots):
+            bad.append(x.get("l"))
+        else:
+            # ... and must not also be reachable from the no-sequence edge without passing the consumption: covered by must_pass from entry;
+            # additionally every path from the loop head to this overwrite passes the consumption in the same iteration
+            loop_ok = all(f.must_pass(via_roots=cons_roots, starts=[(s_, 0)], targets=[(b, i)]) for s_ in [bb for bb in f.blocks if (b in f.reachable([bb])) and bb in f.reachable([b])][:0] or [])
+            if not loop_ok:
+                bad.append(x.get("l"))
+    res.check(n >= 2 and not bad, R, "carry-updates", f.loc, "%d updates of the carry: accumulated, or replaced only after being consumed" % n,
+              "ZSTD_ldm_generateSequences overwrites the carried literal count (line %s) on a path where it was not added to a sequence: when a chunk "
+              "yields no match the literals still owed from earlier chunks are lost and every later LDM sequence of the job sits too early" % bad)
+    res.need(R, 2)
+
+
 def run(tier):
     res = Result("C01", tier)
     tus, info = extract(["compress", "decompress", "common"])
@@ -273,6 +312,7 @@ def run(tier):
     fallback_and_handover(prog, res)
     tentative_table_rollback(prog, res)
     long_length_bonus(prog, res)
+    ldm_leftover_accumulates(prog, res)
     two_repcode_histories(prog, res)
     t4_common.run(prog, res, "T4.error-discipline", ["lib/compress/"], 220)
     # frozen guards of lib/compress for the error codes this property owns (shared inventory, split by code)
